@@ -20,7 +20,7 @@ typedef ebpps_sketch<uint64_t> EB;
 const char* property_id() { return "C18"; }
 unsigned case_timeout_s() { return 300; }
 static const uint64_t NSTAT_QUICK = 10, NSTAT_THOROUGH = 16;
-uint64_t num_cases(bool thorough) { return thorough ? NSTAT_THOROUGH + 150000 : NSTAT_QUICK + 9000; }
+uint64_t num_cases(bool thorough) { return thorough ? NSTAT_THOROUGH + 150000 : NSTAT_QUICK + 14000; }
 void final_report() {}
 
 // ---------------------------------------------------------------- per-case id registry
@@ -280,6 +280,7 @@ static void explore_case(Rng& r) {
       VF_CHECK(close_rel(A.sk->get_cumulative_weight(), A.m.cum, 1e-12), "merge|cumulative-weight-not-sum", md + " got=" + str(A.sk->get_cumulative_weight()));
       if (arg_empty || target_empty) VF_CHECK(A.sk->get_k() == A.m.k, "merge|k-not-min-when-one-side-empty", md + " got=" + std::to_string(A.sk->get_k()) + " want=" + std::to_string(A.m.k));
       else VF_CHECK(A.sk->get_k() == A.m.k, "merge|k-not-min", md + " got=" + std::to_string(A.sk->get_k()) + " want=" + std::to_string(A.m.k));
+      A.m.k = A.sk->get_k();   // a k mismatch has been reported once; do not let it cascade into every later clause
       observe(*A.sk, A.m, "merge", 3);
       if (!rvalue) observe(*B.sk, before_arg, "being merged from (lvalue argument must be unchanged)", 1);
       // keep streaming into the merged sketch
